@@ -9,7 +9,7 @@ NOTES = ('Contract-based deductive verification of the real code. Engine V: Veru
          'See DESIGN.md.')
 ENGINES = [
     {'name': 'V', 'path': '/verif/lib/verus_engine.py',
-     'serves_properties': ['C01', 'C02', 'C04', 'C05', 'C06', 'C07', 'C08', 'C09', 'C10', 'C11', 'C12', 'C13', 'C14', 'C15', 'C17', 'C18', 'C19'],
+     'serves_properties': ['C01', 'C02', 'C04', 'C05', 'C06', 'C07', 'C08', 'C09', 'C10', 'C11', 'C12', 'C13', 'C14', 'C15', 'C16', 'C17', 'C18', 'C19'],
      'kind_free_text': 'Verus 0.2026.09.13 single-file deductive verification of functions cut verbatim from /repo/src (and functions '
                        'cut from the pinned dependency sources: cbor-smol skipper, heapless / heapless-bytes decoders); contracts (spec functions, *SpecImpl blocks, injected ensures, ghost state, lemmas) in /verif/verus'},
     {'name': 'D', 'path': '/verif/lib/decl_engine.py',
@@ -117,8 +117,8 @@ CHECKS = {
   'note': 'derive contracts assumed; value-level round trip of large types not executed symbolically.' + _D,
  },
  'C16': {
-  'engine': 'D', 'design_ref': 'DESIGN.md §5 C16',
-  'technique': 'Verus-discharged obligations over every pair of distinct effective wire tables among the 8 feature configurations',
+  'engine': 'V+D', 'design_ref': 'DESIGN.md §5 C16, §10.4h',
+  'technique': 'Verus-discharged obligations over every pair of distinct effective wire tables among the 8 feature configurations; Verus proof of the four string identifier tables (verbatim) against one contract in the two extreme feature configurations (verus --cfg)',
   'text': 'For every struct and every pair of configurations: common members have identical rows in the same relative order; configuration-only members are feature-only per the specification; constants other than LARGE_BLOB_MAX_FRAGMENT_LENGTH do not vary; std/arbitrary/log-* guard no member, attribute or constant.',
   'note': 'A1-A3, A5 assumed.' + _D,
  },
